@@ -269,10 +269,16 @@ pub(crate) fn lex_between<'a>(
                 continue 'outer;
             }
         }
-        if let Some(string_match) = STRING_RE.find(s) {
+        if let Some(string_captures) = STRING_RE.captures(s) {
+            let string_match = string_captures.get(0).unwrap();
             let text = string_match.as_str();
             let (line_number, column) = lp.from_offset(offset);
-            if text.ends_with('"') {
+            // The literal is closed if the regex stopped at a
+            // doublequote rather than the end of the input. Looking
+            // at the last character isn't enough: `"` and `"\"` end
+            // with a doublequote but are not closed.
+            let is_closed = string_captures.get(2).is_some_and(|m| !m.is_empty());
+            if is_closed {
                 // Well-formed string literal.
                 tokens.push(Token {
                     position: Position {
